@@ -33,7 +33,9 @@ EXPLANATION = (
     "later stage; the buffered output is the last stage.  R3 in the scalar sibling the key that groups delay slots into shared chains "
     "(G[key], G.setdefault(key, ..)) has one component whose traced values are the per-slot rate expressions and one whose traced values "
     "are orders, both bound by the same loop over the slots; the chain's number of stages traces back through the keys of the grouping "
-    "dict to order values; and the chain's rate is read from a per-slot list at a slot of the chain's own group, or from the group's "
+    "dict to order values, or is read from one representative member of the group (a per-slot sequence indexed through the group, or the "
+    "group's own record) and the key contains the very quantity that is read (slots may share a chain only if they agree on every kernel "
+    "parameter the chain is built from); and the chain's rate is read from a per-slot list at a slot of the chain's own group, or from the group's "
     "own record where it was stored by the iteration that files the slot.  R4 in _collect_delays_from_edges the `discretize` "
     "flag handed to _process_delays for the delay is, on every path, the one set by the test of the same edge's spread (True exactly on "
     "the no-spread arm, or the value of that test itself), and the spread is converted with a flag that is False (the statements are "
@@ -685,13 +687,35 @@ def r3_grouping_key(ctx, rid):
         while a is not None and not isinstance(a, ast.FunctionDef):
             if isinstance(a, ast.For):
                 it, _ = U.unwrap_enumerate(a.iter)
-                if isinstance(it, ast.Call) and call_name(it) == "items" and isinstance(it.func, ast.Attribute) and isinstance(it.func.value, ast.Name):
-                    outer = (a, it.func.value.id)
+                if isinstance(it, ast.Call) and call_name(it) in ("items", "values") and isinstance(it.func, ast.Attribute) \
+                        and isinstance(it.func.value, ast.Name) and not it.args:
+                    outer = (a, it.func.value.id, call_name(it))
             a = parent(a)
         if outer is None:
             continue        # one chain per call (matrix form): nothing is shared
         n += 1
-        oloop, G = outer
+        oloop, G, how = outer
+        # the group variable: the dict *value* bound by the chain loop
+        it_, en_ = U.unwrap_enumerate(oloop.iter)
+        tgt_ = oloop.target.elts[1] if en_ and isinstance(oloop.target, ast.Tuple) and len(oloop.target.elts) == 2 else oloop.target
+        if how == "items":
+            gname = tgt_.elts[1].id if isinstance(tgt_, ast.Tuple) and len(tgt_.elts) == 2 and isinstance(tgt_.elts[1], ast.Name) else None
+        else:
+            gname = tgt_.id if isinstance(tgt_, ast.Name) else None
+        if gname is None:
+            raise AnalysisError(f"{rid}: {f.qual}: group variable of `{norm(oloop)}` not recognised")
+        # names derived from the group's own record, not from its position
+        derived = {gname}
+        changed_ = True
+        while changed_:
+            changed_ = False
+            for st_ in ast.walk(oloop):
+                if isinstance(st_, ast.Assign) and any(isinstance(x, ast.Name) and x.id in derived for x in ast.walk(st_.value)):
+                    for t_ in st_.targets:
+                        for x in ast.walk(t_):
+                            if isinstance(x, ast.Name) and x.id not in derived:
+                                derived.add(x.id)
+                                changed_ = True
         # the keys under which slots are filed: G[key] (store, or .append on a defaultdict), G.setdefault(key, ...), G.get(key, ...)
         key_exprs = []
         for x in walk_shallow(f.node):
@@ -723,6 +747,7 @@ def r3_grouping_key(ctx, rid):
         # ---- (a) the key holds the slot's own order and the slot's own rate, drawn from one iteration
         seen_keys = set()
         key_stmts = []
+        key_comps = []
         for kx in key_exprs:
             kdef = kx
             if isinstance(kx, ast.Name):
@@ -738,6 +763,7 @@ def r3_grouping_key(ctx, rid):
             comps = list(kdef.elts) if isinstance(kdef, ast.Tuple) else [kdef]
             desc, rate_loops, order_loops = [], [], []
             for c in comps:
+                key_comps.append((c, kst))
                 tr = U.trace(ctx, root, c)
                 if tr.opaque():
                     l = tr.opaque()[0]
@@ -768,49 +794,63 @@ def r3_grouping_key(ctx, rid):
                        f"merged into one chain and all get the kernel of the first") if missing else \
                     "order and rate in the key are not drawn from the same iteration"
                 ctx.violation(rid, f, kst, why, facts, label=label)
-        # ---- (b) the number of stages of a chain is the order component of its key
+        # ---- (b) the number of stages of a chain is fixed by the group's key: it is a component of the key, or it is read from a
+        #          representative member of the group and the key contains the very quantity that is read
         stage_n = _stage_count_name(ch)
         if stage_n is None:
             raise AnalysisError(f"{rid}: {f.qual}: the stage loop `{norm(ch.loop)}` is not a range over a name")
         stage_tr = U.trace(ctx, root, stage_n)
-        via_key = [sel for sc_, w, sel in stage_tr.waypoints if w.id == G and sel and sel[0][0] == "dkey"]
-        sdefs = ctx.rd(f).defs_reaching(stage_n)
-        if not via_key or len(sdefs) != 1 or sdefs[0] is not oloop:
-            raise AnalysisError(f"{rid}: {f.qual}: the stage count `{stage_n.id}` is not a component of the key destructured by `{norm(oloop)}` "
-                                f"(unrecognised form)")
         if stage_tr.opaque():
             l = stage_tr.opaque()[0]
             raise AnalysisError(f"{rid}: {f.qual}: the stage count `{stage_n.id}` cannot be traced (stops at `{ast.unparse(l.node)}`)")
         svals = stage_tr.values()
-        pos = [x[1] for x in via_key[0][1:2] if x[0] == "idx"]
+        via_key = [sel for sc_, w, sel in stage_tr.waypoints if w.id == G and sel and sel[0][0] == "dkey"]
         label = f"stage count is the key's order component ({norm(key_stmts[0], 50)})"
-        sfacts = {"stage_count": stage_n.id, "key_component": pos[0] if pos else None,
-                  "values": sorted({ast.unparse(l.node) for l in svals})}
-        if svals and all(_is_order_leaf(l, sites) for l in svals):
-            ctx.ok(rid, f, oloop, f"the number of stages `{stage_n.id}` is component {pos[0] if pos else '?'} of the key, which holds the slot's order", sfacts,
-                   label=label)
+        sfacts = {"stage_count": stage_n.id, "values": sorted({ast.unparse(l.node) for l in svals})}
+        if via_key:
+            pos = [x[1] for x in via_key[0][1:2] if x[0] == "idx"]
+            sfacts["key_component"] = pos[0] if pos else None
+            if svals and all(_is_order_leaf(l, sites) for l in svals):
+                ctx.ok(rid, f, oloop, f"the number of stages `{stage_n.id}` is component {pos[0] if pos else '?'} of the key, which holds the slot's order", sfacts,
+                       label=label)
+            else:
+                ctx.violation(rid, f, oloop, f"the number of stages `{stage_n.id}` is read from component {pos[0] if pos else '?'} of the grouping key, which does not "
+                                             f"hold the slot's order (it holds {sfacts['values']}): chains would get a wrong number of stages", sfacts,
+                              label=label)
         else:
-            ctx.violation(rid, f, oloop, f"the number of stages `{stage_n.id}` is read from component {pos[0] if pos else '?'} of the grouping key, which does not "
-                                         f"hold the slot's order (it holds {sfacts['values']}): chains would get a wrong number of stages", sfacts,
-                          label=label)
+            sval = stage_n
+            hops = 0
+            while isinstance(sval, ast.Name) and hops < 4:
+                v2 = U.single_value(ctx, f, sval)
+                if v2 is None:
+                    break
+                sval, hops = v2, hops + 1
+            if not (isinstance(sval, ast.Subscript) and isinstance(sval.value, ast.Name)):
+                raise AnalysisError(f"{rid}: {f.qual}: the stage count `{stage_n.id}` is neither a component of the key of `{G}` nor read from a member "
+                                    f"of the group (unrecognised form: `{ast.unparse(sval)}`)")
+            own = sval.value.id in derived or any(isinstance(nm, ast.Name) and nm.id in derived for nm in ast.walk(sval.slice))
+            sfacts["read_as"] = ast.unparse(sval)
+            ids = {id(l.node) for l in svals}
+            covered = []
+            for c, kst in key_comps:
+                ctr = U.trace(ctx, root, c)
+                cids = {id(l.node) for l in ctr.values()}
+                if cids and cids == ids:
+                    covered.append(c)
+            if not own:
+                ctx.violation(rid, f, _stmt(sval), f"the number of stages `{ast.unparse(sval)}` is not read at a slot of the chain's own group", sfacts, label=label)
+            elif not (svals and all(_is_order_leaf(l, sites) for l in svals)):
+                ctx.violation(rid, f, _stmt(sval), f"the number of stages `{ast.unparse(sval)}` does not hold the slot's order (it holds {sfacts['values']})",
+                              sfacts, label=label)
+            elif covered:
+                ctx.ok(rid, f, _stmt(sval), f"the number of stages is read from one member of the group (`{ast.unparse(sval)}`), and the key contains this very "
+                                            f"quantity (`{ast.unparse(covered[0])}`): all members agree on it", sfacts, label=label)
+            else:
+                ctx.violation(rid, f, _stmt(sval), f"the number of stages of a shared chain is read from one representative member of the group "
+                                                   f"(`{ast.unparse(sval)}`), but the key `{ast.unparse(key_comps[0][1].value) if isinstance(key_comps[0][1], ast.Assign) else norm(key_stmts[0], 60)}` "
+                                                   f"that decides which slots share a chain does not contain the slot's order: slots that agree on the other "
+                                                   f"key components but differ in their order get the kernel order of the group's first slot", sfacts, label=label)
         # ---- (c) the chain's rate is the rate of a slot of this group
-        it_, en_ = U.unwrap_enumerate(oloop.iter)
-        tgt_ = oloop.target.elts[1] if en_ and isinstance(oloop.target, ast.Tuple) and len(oloop.target.elts) == 2 else oloop.target
-        gname = tgt_.elts[1].id if isinstance(tgt_, ast.Tuple) and len(tgt_.elts) == 2 and isinstance(tgt_.elts[1], ast.Name) else None
-        if gname is None:
-            raise AnalysisError(f"{rid}: {f.qual}: group variable of `{norm(oloop)}` not recognised")
-        # names derived from the group's own record (the dict *value* bound by the chain loop), not from its position
-        derived = {gname}
-        changed_ = True
-        while changed_:
-            changed_ = False
-            for st_ in ast.walk(oloop):
-                if isinstance(st_, ast.Assign) and any(isinstance(x, ast.Name) and x.id in derived for x in ast.walk(st_.value)):
-                    for t_ in st_.targets:
-                        for x in ast.walk(t_):
-                            if isinstance(x, ast.Name) and x.id not in derived:
-                                derived.add(x.id)
-                                changed_ = True
         val = cd.fields["value"]
         hops = 0
         while isinstance(val, ast.Name) and hops < 4:
